@@ -765,7 +765,8 @@ Definition view_ok (F : facts) : Prop :=
 Definition loop_ok (F : facts) : Prop :=
   f_hb_ctx_check_first F = true /\ f_hb_now_in_loop F = true /\ f_hb_write_err F = EIgnore /\
   f_hb_chtimes_err F = EIgnore /\ f_hb_chtimes_arg F = ANow /\ f_hb_sleep_with_ctx F = true /\
-  f_hb_sleep_slack_ns F = ms /\ f_hb_spawn_period F = PHeartBeat /\ f_tl_chtimes_dir_now F = true.
+  f_hb_sleep_slack_ns F = ms /\ f_hb_spawn_period F = PHeartBeat /\ f_tl_chtimes_dir_now F = true /\
+  f_wtf_ops F = [WOpen; WDeferClose; WCopy; WClose].
 
 (* TryLock's branches and ReleaseIfStale *)
 Definition op_ok (F : facts) : Prop :=
@@ -823,7 +824,7 @@ Qed.
 Lemma cycles_events_f_eq F : loop_ok F -> forall cs s ex p,
   cycles_events_f F s ex cs p = cycles_events s ex cs p.
 Proof.
-  intros (H1 & H2 & H3 & H4 & H5 & H6 & H7 & H8 & H9).
+  intros (H1 & H2 & H3 & H4 & H5 & H6 & H7 & H8 & H9 & H10).
   induction cs as [|c r IH]; intros s ex p; [reflexivity|].
   cbn [cycles_events_f cycles_events].
   assert (G : goes_on F c = true) by (unfold goes_on; rewrite H3, H4; destruct (c_fault c); reflexivity).
@@ -834,10 +835,13 @@ Qed.
 
 Lemma holder_trace_f_eq F : loop_ok F -> forall t0 a cs p, holder_trace_f F t0 a cs p = holder_trace t0 a cs p.
 Proof.
-  intros H t0 a cs p. pose proof H as (H1 & H2 & H3 & H4 & H5 & H6 & H7 & H8 & H9).
+  intros H t0 a cs p. pose proof H as (H1 & H2 & H3 & H4 & H5 & H6 & H7 & H8 & H9 & H10).
   unfold holder_trace_f, holder_trace, acquire_events_f, acquire_events, per. rewrite H8, H9.
   now rewrite cycles_events_f_eq.
 Qed.
+
+Lemma iter_ops_f_eq F : loop_ok F -> iter_ops_f F = iter_ops.
+Proof. intros (_ & _ & _ & _ & _ & _ & _ & _ & _ & H). unfold iter_ops_f. rewrite H. reflexivity. Qed.
 
 Lemma loop_end_f_eq F : end_ok F -> forall calls, loop_end_f F calls = loop_end calls.
 Proof.
